@@ -401,9 +401,24 @@ def check(model, rep, tier):
                 continue
               got = {x.attr for x in ast.walk(l2['iter']) if isinstance(x, ast.Attribute)
                      and core.norm(x.value) == t1 + '.args'}
-              # without the None filter only the list-valued groups are safe
+              # without the None filter only the list-valued groups are safe --
+              # unless the optional ones are filtered where they are listed:
+              # ... + [a for a in (n.args.vararg, n.args.kwarg) if a is not None]
               if not formula.equivalent(c2, ~formula.atom('NONE'))[0]:
-                got -= {'vararg', 'kwarg'}
+                filtered = set()
+                for lc_ in ast.walk(l2['iter']):
+                  if isinstance(lc_, (ast.ListComp, ast.GeneratorExp)) and len(
+                      lc_.generators) == 1 and isinstance(
+                          lc_.generators[0].target, ast.Name) and isinstance(
+                              lc_.generators[0].iter, (ast.Tuple, ast.List)):
+                    v_ = lc_.generators[0].target.id
+                    if core.norm(lc_.elt) == v_ and [core.norm(i_) for i_ in
+                                                     lc_.generators[0].ifs] == [
+                                                         '%s is not None' % v_]:
+                      filtered |= {x.attr for x in lc_.generators[0].iter.elts
+                                   if isinstance(x, ast.Attribute) and
+                                   core.norm(x.value) == t1 + '.args'}
+                got -= ({'vararg', 'kwarg'} - filtered)
               groups |= got
             lam_ok = lam_ok and shape_ok and {'posonlyargs', 'args', 'kwonlyargs',
                                               'vararg', 'kwarg'} <= groups
